@@ -24,14 +24,21 @@ func main() {
 func readRequest() *pluginpb.CodeGeneratorRequest {
 	input, err := io.ReadAll(os.Stdin)
 	if err != nil {
-		panic(err)
+		fail(err)
 	}
 
 	var req pluginpb.CodeGeneratorRequest
 	if unmarshalErr := proto.Unmarshal(input, &req); unmarshalErr != nil {
-		panic(unmarshalErr)
+		fail(unmarshalErr)
 	}
 	return &req
+}
+
+// fail reports an error the way protogen-based plugins do (message on stderr, exit status 1)
+// instead of crashing with a panic and a stack trace.
+func fail(err error) {
+	fmt.Fprintf(os.Stderr, "protoc-gen-openapiv3: %v\n", err)
+	os.Exit(1)
 }
 
 func parseFormat(req *pluginpb.CodeGeneratorRequest) openapiv3.OutputFormat {
@@ -54,7 +61,7 @@ func createPlugin(req *pluginpb.CodeGeneratorRequest) *protogen.Plugin {
 	opts := protogen.Options{}
 	plugin, err := opts.New(req)
 	if err != nil {
-		panic(err)
+		fail(err)
 	}
 	return plugin
 }
@@ -93,7 +100,7 @@ func createServiceGenerator(
 func renderService(generator *openapiv3.Generator) []byte {
 	output, renderErr := generator.Render()
 	if renderErr != nil {
-		panic(renderErr)
+		fail(renderErr)
 	}
 	return output
 }
@@ -112,7 +119,7 @@ func writeServiceFile(
 
 	generatedFile := plugin.NewGeneratedFile(filename, "")
 	if _, writeErr := generatedFile.Write(output); writeErr != nil {
-		panic(writeErr)
+		fail(writeErr)
 	}
 }
 
@@ -122,11 +129,11 @@ func writeResponse(plugin *protogen.Plugin) {
 
 	respOutput, err := proto.Marshal(resp)
 	if err != nil {
-		panic(err)
+		fail(err)
 	}
 
 	if _, writeErr := os.Stdout.Write(respOutput); writeErr != nil {
-		panic(writeErr)
+		fail(writeErr)
 	}
 }
 
